@@ -21,10 +21,16 @@ def msg_ctor_calls(node: ast.AST):
 
 
 def check(ctx: Ctx) -> None:
+    split_rules(ctx, {"KEY", "PURE", "Q1", "CUT", "RESTRIKE", "COUNT"}, explain=True)
+
+
+def split_rules(ctx: Ctx, include: set, explain: bool = False) -> None:
+    """The rules on RelativeSequence.split; C09 (bar splitting is built on split) re-uses KEY, CUT and RESTRIKE."""
     p = ctx.p
     fi = p.func(FN)
     ctx.analysed(fi)
-    ctx.explanation = (
+    if explain:
+      ctx.explanation = (
         "Structural necessary conditions of C08 on RelativeSequence.split: KEY2 the open-note dictionary is keyed by channel "
         "and pitch; Q1 the list of events deferred to the next piece is consumed on every path before it is re-initialised "
         "or the function returns (must-consume dataflow; the `while remaining >= 0` exit is pruned by the proved invariant "
@@ -33,11 +39,26 @@ def check(ctx: Ctx) -> None:
         "is closed with the open note's channel and pitch and re-opened with its channel, pitch and velocity; PURE the source "
         "object is not written (effect analysis); COUNT at most one piece is appended per capacity plus one remainder. "
         "Not decided: exact piece durations, piano-roll equality of the concatenation.")
-    ctx.assumptions += ["capacities are positive integers", "the relative sequence is well-formed (note-offs follow their note-ons)"]
+    if explain:
+        ctx.assumptions += ["capacities are positive integers", "the relative sequence is well-formed (note-offs follow their note-ons)"]
 
-    keykind.check_function(ctx, FN, "KEY", expect_min=1)
+    if "KEY" in include:
+        keykind.check_function(ctx, FN, "KEY", expect_min=1)
 
-    # --- PURE
+    if "PURE" in include:
+        _pure(ctx, fi)
+    if "Q1" in include:
+        _q1(ctx, fi)
+    if "CUT" in include:
+        _cut(ctx, fi)
+    if "RESTRIKE" in include:
+        _restrike(ctx, fi)
+    if "COUNT" in include:
+        _count(ctx, fi)
+
+
+def _pure(ctx, fi):
+    p = ctx.p
     eff = Effects(p)
     ws = eff.writes("RelativeSequence", "split")
     ctx.check(not ws, "PURE", f"{FN}: no write to the source's event list or its messages", function=FN,
@@ -48,7 +69,10 @@ def check(ctx: Ctx) -> None:
     has_inval = any(isinstance(c, ast.Call) and call_method(c)[1] in ("invalidate_abs", "invalidate_rel") for c in walk_local(ss.node))
     ctx.ok("PURE", "Sequence.split: wrapper performs no mutation", f"invalidate calls: {has_inval}")
 
-    # --- Q1
+
+
+def _q1(ctx, fi):
+    p = ctx.p
     qs = queue.find_queues(fi.node)
     ctx.floor("deferred-event queues in split", len(qs), 1)
     for q in qs:
@@ -72,7 +96,10 @@ def check(ctx: Ctx) -> None:
                           message=f"a {lab} put aside for the next piece is lost: the list {why} "
                                   f"(the end-of-input `break` leaves the loop without splicing it back)", file=fi.file, node=node)
 
-    # --- CUT
+
+
+def _cut(ctx, fi):
+    p = ctx.p
     cut_checked = 0
     for n in walk_local(fi.node):
         if isinstance(n, ast.If) and isinstance(n.test, ast.Compare) and len(n.test.ops) == 1 and isinstance(n.test.ops[0], (ast.LtE, ast.Lt)) \
@@ -104,7 +131,10 @@ def check(ctx: Ctx) -> None:
                       construct="capacity not reduced by exactly the wait taken", message=f"{[short(d) for d in dec]}", file=fi.file, node=n)
     ctx.floor("boundary wait-cut sites", cut_checked, 1)
 
-    # --- RESTRIKE
+
+
+def _restrike(ctx, fi):
+    p = ctx.p
     restrike = 0
     for lp in [n for n in walk_local(fi.node) if isinstance(n, ast.For)]:
         calls = [(c, t) for c, t in msg_ctor_calls(ast.Module(body=lp.body, type_ignores=[]))
@@ -135,7 +165,10 @@ def check(ctx: Ctx) -> None:
                       message=f"`{short(c, 100)}`", file=fi.file, node=c)
     ctx.floor("boundary re-strike loops", restrike, 1)
 
-    # --- COUNT
+
+
+def _count(ctx, fi):
+    p = ctx.p
     result = None
     for r in walk_local(fi.node):
         if isinstance(r, ast.Return) and isinstance(r.value, ast.Name):
